@@ -242,6 +242,14 @@ impl SplineCase {
                 }
             }
         }
+        // duplicated lanes: every lane holds the data of lane 0 (equal blocks along every trailing axis)
+        if lanes >= 2 && src.chance(1, 15) {
+            for i in 0..n {
+                for l in 1..lanes {
+                    data[i * lanes + l] = data[i * lanes];
+                }
+            }
+        }
         let h_typ = (x[n - 1] - x[0]) / (n - 1) as f64;
         let periodic = match o.periodic {
             Some(p) => p,
@@ -315,6 +323,9 @@ impl SplineCase {
             let d = self.lane_data(l);
             if d.iter().all(|v| *v == d[0]) {
                 out.class("lane:constant");
+            }
+            if l > 0 && d == self.lane_data(0) {
+                out.class("lane:duplicate-of-lane-0");
             }
         }
         if !self.bc.is_periodic() {
